@@ -32,7 +32,7 @@ def cases(tier, seed):
     n = 90 if tier == "quick" else 20000
     for i in range(n):
         out.append({"name": "retry.script/%d" % i, "kind": "gen", "idx": i})
-    cap = 24 if tier == "quick" else None
+    cap = None
     for victim, trig in (("worker", "fail0"), ("worker", "submit"), ("client", "fail0"), ("client", "complete1"), ("client", "submit")):
         for second in ("complete1", "fail1", "submit", "timer", "fail0"):
             if trig == second and trig != "submit":
@@ -124,8 +124,11 @@ class RW(object):
         w = self
         counters = {"sr": 0, "st": 0}
 
+        seen = {"sr": {}, "st": {}}
+
         def sr(idx, attempt, future):
             counters["sr"] += 1
+            seen["sr"][attempt] = (future, future.done())
             if policy["raise_in"] == "should_retry" and counters["sr"] == policy["raise_at"]:
                 raise UserErrorB("policy.should_retry")
             if attempt >= policy["max_attempts"]:
@@ -136,6 +139,7 @@ class RW(object):
 
         def st(idx, attempt, future):
             counters["st"] += 1
+            seen["st"][attempt] = (future, future.done())
             if policy["raise_in"] == "sleep_time" and counters["st"] == policy["raise_at"]:
                 raise UserErrorB("policy.sleep_time")
             return policy["delays"][min(attempt - 1, 5)]
@@ -151,6 +155,7 @@ class RW(object):
                 return rst(attempt, future)
         p = P()
         p.rsr, p.rst = rsr, rst
+        p.seen = seen
         return p
 
     def submit(self, sid=None):
@@ -177,6 +182,8 @@ class RW(object):
             rec = self.subs[int(fid[3:])]
             if any(a["item"] == k for a in rec["attempts"]):
                 continue
+            if k not in arrivals:
+                continue  # the delegate's submit() is still in progress on another thread: next scan
             s, vt = arrivals[k]
             n = len(rec["attempts"])
             rec["attempts"].append({"item": k, "arr_seq": s, "arr_t": vt, "due": vt + self.durs[rec["sid"]], "end_seq": None,
@@ -283,6 +290,16 @@ class RW(object):
                     res.violation("policy-consultation/should_retry", "%s: should_retry called with attempts %s, expected %s" % (where, sr_got, sr_exp))
                 if st_got != st_exp:
                     res.violation("policy-consultation/sleep_time", "%s: sleep_time called with attempts %s, expected %s" % (where, st_got, st_exp))
+                # both policy functions are asked about the finished attempt: its (done) future
+                for which in ("sr", "st"):
+                    for attempt, (fut, was_done) in sorted(p.seen[which].items()):
+                        a = atts[attempt - 1] if 0 < attempt <= len(atts) else None
+                        dfut = self.me.fut(a["item"]) if a else None
+                        if not was_done or (dfut is not None and fut is not dfut):
+                            res.violation("policy-consultation/%s-future" % {"sr": "should_retry", "st": "sleep_time"}[which],
+                                          "%s: %s(attempt=%d, future) was given %s (done=%s), not the finished attempt's future"
+                                          % (where, {"sr": "should_retry", "st": "sleep_time"}[which], attempt, type(fut).__name__, was_done))
+                            break
             # final outcome and callback timing
             if cancelled or not atts:
                 continue
